@@ -1,1 +1,3 @@
 import EmdProofs.Basic
+import EmdProofs.TreeWF
+import EmdProofs.Roundtrip
